@@ -165,6 +165,7 @@ var tgtHandles = map[string]tgtHandle{
 	"string":                    tgtOf[string]{},
 	"map[string]map[string]any": tgtOf[map[string]map[string]any]{},
 	"*any":                      tgtOf[*any]{},
+	"map[string]Outer":          tgtOf[map[string]Outer]{},
 }
 
 func fieldMapping(m Mapping, short bool) *compose.FieldMapping {
